@@ -419,9 +419,9 @@ class SourceHandler:
                 ignored_packet=packet,
             )
         if packet.directive_type != DirectiveType.NAK_PDU:
-            if (
-                self.states.step == TransactionStep.WAITING_FOR_EOF_ACK
-                and packet.directive_type != DirectiveType.ACK_PDU
+            if self.states.step == TransactionStep.WAITING_FOR_EOF_ACK and packet.directive_type not in (
+                DirectiveType.ACK_PDU,
+                DirectiveType.FINISHED_PDU,
             ):
                 raise PduIgnoredForSource(
                     reason=PduIgnoredForSourceReason.NOT_WAITING_FOR_ACK,
@@ -748,6 +748,16 @@ class SourceHandler:
                 f"{self.transmission_mode!r}"
             )
         if self.__handle_retransmission(packet_holder):
+            return
+        if (
+            packet_holder.pdu is not None
+            and packet_holder.pdu_type == PduType.FILE_DIRECTIVE
+            and packet_holder.pdu_directive_type == DirectiveType.FINISHED_PDU
+        ):
+            # The receiver only sends the Finished PDU after it received the EOF PDU, so the ACK (EOF)
+            # PDU was lost. Ignoring the Finished PDU here wastes the limited re-transmissions of the
+            # receiver. The Finished PDU is handled in the next step of this FSM cycle.
+            self.states.step = TransactionStep.WAITING_FOR_FINISHED
             return
         if packet_holder.pdu is None or (
             packet_holder.pdu_type == PduType.FILE_DIRECTIVE
